@@ -375,15 +375,23 @@ Definition step_fn (s : state) (e : event) : option state :=
 
 (* ---------------------------------------------------------------- configurations, runs *)
 
-Inductive role := RoleRx | RoleTx (cyclic : bool) | RoleApp | RoleNone.
+(** [RoleTxOn]: a transmitter whose message ALREADY has cyclic transmission enabled when the
+    transmitter starts, with no token in the wake-up channel - the flag was set before an earlier
+    run of the node, which consumed the token (run / cancel / run again on the same node value), or
+    the TransmittedMessage implementation starts enabled. *)
+Inductive role := RoleRx | RoleTx (cyclic : bool) | RoleTxOn (cyclic : bool) | RoleApp | RoleNone.
 
 Definition init_tx (cyclic : bool) : tx :=
   mkTx T0 false false false false cyclic false false 0 0 0 0 0 0 0.
+
+Definition init_tx_on (cyclic : bool) : tx :=
+  mkTx T0 false true false false cyclic false false 0 0 0 0 0 0 0.
 
 Definition init_thread (r : role) : thread :=
   match r with
   | RoleRx => TRx R0
   | RoleTx c => TTx (init_tx c)
+  | RoleTxOn c => TTx (init_tx_on c)
   | RoleApp => TApp (mkApp false AFree)
   | RoleNone => TNone
   end.
